@@ -11,11 +11,11 @@ OPATH = storage.PREFIX + 'h.sgz'          # the other: an unrelated file of the 
 HAVE_XARRAY = readers.HAVE_XARRAY
 readers.clear_caches()
 
-READER_OPENERS = ['path', 'path', 'preload', 'ccs1', 'ccs2', 'preload_ccs1', 'handle', 'blob', 'blob_preload']
-EMU_OPENERS = ['emulator', 'emulator', 'emulator_ccs1', 'emulator_blob', 'emulator_handle']
+READER_OPENERS = ['path', 'path', 'preload', 'ccs1', 'ccs2', 'preload_ccs1', 'handle', 'blob', 'blob_preload', 'handle_nofd']
+EMU_OPENERS = ['emulator', 'emulator', 'emulator_ccs1', 'emulator_blob', 'emulator_handle', 'emulator_nofd']
 # (C07: what a call may fetch is bounded by the same needed set whatever the chunk-cache size)
-READER_OPENERS_C07 = ['path', 'path', 'preload', 'handle', 'blob', 'blob_preload', 'ccs1', 'ccs2']
-EMU_OPENERS_C07 = ['emulator', 'emulator_blob', 'emulator_ccs1']
+READER_OPENERS_C07 = ['path', 'path', 'preload', 'handle', 'blob', 'blob_preload', 'ccs1', 'ccs2', 'handle_nofd']
+EMU_OPENERS_C07 = ['emulator', 'emulator_blob', 'emulator_ccs1', 'emulator_nofd']
 
 
 def _trace_walk_call(rng, m, kind, visited):
@@ -136,7 +136,7 @@ def gen_history(rng, m, n_ops, reader_openers=READER_OPENERS, emu_openers=EMU_OP
             # [k, kind, arg]] = the call with a one-shot fault on its k-th range request; its own outcome is not
             # judged here (that is C17), what later reads return is
             ops.append(['fcall', slot, c, [rng.choice([0, 0, 0, 1, 1, 2, 3, 5]),
-                                          rng.choice(['exception', 'short', 'empty', 'exception_readall', 'exception_seek']),
+                                          rng.choice(['exception', 'short', 'empty', 'exception_readall', 'exception_seek', 'stall']),
                                           rng.randrange(8)]])
             if rng.random() < 0.6:
                 ops.append(['call', slot, c])          # what a caller does after a transient failure: the same call again
